@@ -139,6 +139,16 @@ func UFBool(name string, args ...[]byte) bool {
 
 func Log(tag string, v any) {}
 
+func Or(a, b bool) bool      { return a || b }
+func And(a, b bool) bool     { return a && b }
+func Implies(a, b bool) bool { return !a || b }
+func Ite64(c bool, a, b uint64) uint64 {
+	if c {
+		return a
+	}
+	return b
+}
+
 // RunReplay is called by the generated test driver.
 func RunReplay(t *testing.T, entries map[string]func()) {
 	path := os.Getenv("VERIF_CEX")
